@@ -262,12 +262,13 @@ ScriptMutations == {
     "nomarker", "twomarkers_after", "twomarkers_before", "marker_gap", "root_before_marker", "root_twice",
     "wrongroot", "otherblock_root", "size_zero", "size_double", "size_half", "nonce_other",
     "trunc_0", "trunc_2", "trunc_4", "trunc_6", "mark_at_start", "no_trailing",
-    "shift_all", "shift_crafted", "shift_marker_gap", "extra_misaligned_marker", "misaligned_marker_first"}
+    "shift_all", "shift_crafted", "shift_marker_gap", "extra_misaligned_marker", "misaligned_marker_first",
+    "misaligned_then_second"}
 
 OtherMutations == {
     "none", "blockhash", "chainid", "otherblock_consistent", "branch_elem", "branch_drop", "branch_add",
     "auxindex_flip", "auxindex_minus1", "auxindex_high", "parbranch_elem", "parindex_1", "parroot",
-    "stale_script", "parindex_minus1", "no_txin"}
+    "stale_script", "parindex_minus1", "no_txin", "parindex_wire_allones"}
 
 BigMutations == {"none", "size_zero", "size_one", "trunc_4", "blockhash", "branch_elem"}
 
@@ -301,6 +302,8 @@ MutatedScript(m, h, nonce) ==
          \* a valid commitment plus a marker that exists only in the hex string
          [] m = "extra_misaligned_marker" -> <<Fill(2), mk, rt, sz, nc, Nib(<<0>>), mk, Nib(<<1>>)>>
          [] m = "misaligned_marker_first" -> <<Nib(<<0>>), mk, Nib(<<1>>), mk, rt, sz, nc>>
+         \* two genuine commitments, the marker digits also occur off the byte grid between them
+         [] m = "misaligned_then_second"  -> <<Fill(2), mk, rt, sz, nc, Nib(<<0>>), mk, Nib(<<1>>), mk, rt, sz, nc>>
 
 \* [p, blk, chain]: the proof and the arguments of Check
 Mutate(m, h, nonce, arg) ==
@@ -325,6 +328,10 @@ Mutate(m, h, nonce, arg) ==
       [] m = "parroot"         -> call([v EXCEPT !.parRoot = Junk(4)])
       [] m = "stale_script"    -> call([v EXCEPT !.script = MutatedScript("nonce_other", h, nonce)])
       [] m = "parindex_minus1" -> call([v EXCEPT !.parIndex = -1])
+      \* as received from the wire: index field 0xffffffff (an unsigned 32-bit value; only its low
+      \* Len(parBranch) bits steer the evaluation, so 3 stands for it here) under an all-zero parent root.
+      \* The driver sends this one through Serialize / Deserialize.
+      [] m = "parindex_wire_allones" -> call([v EXCEPT !.parIndex = 3, !.parRoot = Zero])
       [] m = "no_txin"         -> call([v EXCEPT !.hasIn = FALSE, !.script = <<>>,
                                                  !.parRoot = GetMerkleRoot(CbNoInput, v.parBranch, v.parIndex)])
 
@@ -388,8 +395,8 @@ MutationsRefused ==
                                "marker_gap", "root_before_marker", "root_twice", "wrongroot", "auxindex_flip", "otherblock_root",
                                "size_zero", "size_double", "size_half", "trunc_0", "trunc_2",
                                "shift_all", "shift_crafted", "shift_marker_gap", "extra_misaligned_marker",
-                               "misaligned_marker_first", "parbranch_elem", "parindex_1", "parroot",
-                               "stale_script", "parindex_minus1"} /\ case.h < 32)
+                               "misaligned_marker_first", "misaligned_then_second", "parbranch_elem", "parindex_1", "parroot",
+                               "stale_script", "parindex_minus1", "parindex_wire_allones"} /\ case.h < 32)
         => res.check = "reject"
 
 \* scripts are whole bytes
